@@ -28,7 +28,7 @@ REQUIRED_COUNTERS = ["step." + s for s in STEPS] + [
 
 def plan(tier):
     if tier == "thorough":
-        return [{"variant": "plain", "workers": 16, "cases": 1500}]
+        return [{"variant": "plain", "workers": 16, "cases": 12000}]
     return [{"variant": "plain", "workers": 8, "cases": 90}]
 
 
